@@ -164,7 +164,7 @@ def sub_pairs_random(acc, shard, nshards, tier, seed):
 
 ident = st.text(alphabet=st.sampled_from("abcAB1._-*\\ é"), min_size=1, max_size=5)
 dom_st = st.sampled_from(["py", "std", "c", "p*", "a.b"])
-typ_st = st.sampled_from(["function", "module", "label", "f*n", "a:b", "T"])
+typ_st = st.sampled_from(["function", "module", "label", "f*n", "a:b", "T", "a:b", "directive:option", "a"])
 
 
 @st.composite
@@ -184,7 +184,11 @@ def inv_st(draw):
 
 def coord_filter(values):
     return st.one_of(st.none(), st.just("*"), values, values.map(lambda v: v[:1] + "*"),
-                     values.map(lambda v: "*" + v[-1:]), values.map(lambda v: v.replace("*", "\\*")), pat_st)
+                     values.map(lambda v: "*" + v[-1:]), values.map(lambda v: v.replace("*", "\\*")), pat_st,
+                     # each coordinate is matched on its own: a pattern that is only one side of a ':' inside a type
+                     # ('b' for the type 'a:b'), or that reaches across the domain / type boundary ('py:a'), matches nothing
+                     values.map(lambda v: v.rsplit(":", 1)[-1]), values.map(lambda v: v.split(":", 1)[0]),
+                     values.map(lambda v: v + ":a"), values.map(lambda v: "*:" + v[-1:]))
 
 
 @st.composite
@@ -289,15 +293,20 @@ def link_case(draw):
         invs[key] = {"name": draw(st.sampled_from(["P", "Q r"])), "version": draw(st.sampled_from(["1", "2.0"])),
                      "base_url": draw(st.sampled_from(["https://e.org/doc", "https://e.org/doc/", "", "rel/path"])),
                      "objects": objs}
+    # a second key that names the *same file* under another base URL (e.g. 'stable' and 'latest' of one project)
+    aliases = []
+    if draw(st.integers(0, 2)) == 0:
+        aliases.append(["zz", draw(st.sampled_from(sorted(invs))), draw(st.sampled_from(["https://other.org/v2/", "https://e.org/latest"]))])
     all_d = sorted({d for i in invs.values() for d in i["objects"]})
     all_t = sorted({t for i in invs.values() for dd in i["objects"].values() for t in dd})
     all_n = sorted({n for i in invs.values() for dd in i["objects"].values() for tt in dd.values() for n in tt})
+    keys_for_links = sorted(invs) + [a[0] for a in aliases]
     links = []
     for _ in range(draw(st.integers(1, 4))):
         depth = draw(st.integers(0, 3))  # how many of inv/domain/type are given
         parts = []
         if depth >= 1:
-            parts.append(draw(st.one_of(*([safe_pat(st.sampled_from(sorted(invs)))] * 7 + [st.just("")]))))
+            parts.append(draw(st.one_of(*([safe_pat(st.sampled_from(keys_for_links))] * 7 + [st.just("")]))))
         if depth >= 2:
             parts.append(draw(st.one_of(*([safe_pat(st.sampled_from(all_d))] * 7 + [st.just("")]))))
         if depth >= 3:
@@ -305,7 +314,7 @@ def link_case(draw):
         target = draw(safe_pat(st.sampled_from(all_n)))
         spelling = draw(st.sampled_from(["explicit", "empty", "auto"]))
         links.append({"path": parts, "target": target, "spelling": spelling})
-    return {"inventories": invs, "links": links}
+    return {"inventories": invs, "links": links, "aliases": aliases}
 
 
 def write_inventory(path: str, inv: dict) -> None:
@@ -320,11 +329,31 @@ def write_inventory(path: str, inv: dict) -> None:
         fh.write(data)
 
 
+_PROC_DIR = {}
+
+
+def _process_dir() -> str:
+    """One directory per worker process: the inventory files keep their paths while their content changes from case to
+    case, as an objects.inv does that is regenerated between two builds in one process."""
+    pid = os.getpid()
+    if pid not in _PROC_DIR:
+        from multiprocessing import util
+
+        d = tempfile.mkdtemp(prefix="verif-c19p-")
+        _PROC_DIR.clear()
+        _PROC_DIR[pid] = d
+        util.Finalize(None, shutil.rmtree, args=(d, True), exitpriority=1)
+        import atexit
+
+        atexit.register(shutil.rmtree, d, True)
+    return _PROC_DIR[pid]
+
+
 def check_links(acc, case) -> list[dict]:
     from docutils import nodes
 
     mk = (acc or Acc(PROPERTY, "replay")).violation
-    tmp = tempfile.mkdtemp(prefix="verif-c19-")
+    tmp = _process_dir()
     try:
         conf = {}
         loaded = {}
@@ -337,6 +366,9 @@ def check_links(acc, case) -> list[dict]:
                                  "text": it["text"]} for n, it in tt.items()} for t, tt in dd.items()}
                     for d, dd in inv["objects"].items()}
             loaded[key] = {**inv, "objects": objs}
+        for new_key, old_key, base_url in case.get("aliases") or []:
+            conf[new_key] = (base_url, conf[old_key][1])
+            loaded[new_key] = {**loaded[old_key], "base_url": base_url}
         paras = []
         for i, ln in enumerate(case["links"]):
             href = "inv:" + ":".join(ln["path"]) + "#" + ln["target"]
@@ -349,7 +381,8 @@ def check_links(acc, case) -> list[dict]:
         text = "\n\n".join(paras) + "\n"
         doctree, warn = front.docutils_publish(text, settings={"myst_inventories": conf})
     finally:
-        shutil.rmtree(tmp, ignore_errors=True)
+        for name in os.listdir(tmp):
+            os.unlink(os.path.join(tmp, name))
     wl = [w for w in front.warning_lines(warn) if "[myst." in w]
     vs = []
     paragraphs = [p for p in doctree.findall(nodes.paragraph) if p.astext().startswith("M") and
